@@ -65,6 +65,7 @@ pub trait PiWrite<E: Endianness>: BitWrite<E> + RiceWrite<E> {
 //@PROLOGUE let ghost n0 = n;
 //@REPLACE <<let lambda = n.ilog2() as usize;>> => <<let lg = n.ilog2(); let lambda = lg as usize;>>
 //@PROOF after=<<let lambda = lg as usize;>> proof { lemma_pi_lambda(n0, n, lg); lemma_rice_no_overflow(lambda as u64, k as nat); lemma_pi_small(lambda as u64, k as nat); }
+//@PROOF[checks] after=<<n ^= 1 << lambda;>> proof { lemma_xor_top(E::little(), (n0 + 1) as u64, lambda as nat, n); }
 //@END
 }
 
